@@ -1,8 +1,183 @@
+/-
+  C13 — keys, WIF, ECDSA.  The ops "c13.<primitive>" expose the reference primitives of
+  BtcVerif/Crypto for cross-validation against Python (hashlib, OpenSSL via bitcoin.core.key).
+-/
 import Driver.Util
+import BtcVerif.Crypto.Sha256
+import BtcVerif.Crypto.Sha1
+import BtcVerif.Crypto.Ripemd160
+import BtcVerif.Crypto.Murmur3
+import BtcVerif.Crypto.Secp256k1
+import BtcVerif.Model.Keys
+import BtcVerif.Spec.Chain
 
 namespace Driver.C13
 open BtcVerif Driver
+open BtcVerif.Crypto
 
-def handle (_op : String) (_args : List String) : Option String := none
+def parseBool? (s : String) : Option Bool :=
+  if s == "1" then some true else if s == "0" then some false else none
+
+def bit (b : Bool) : String := if b then "1" else "0"
+
+def hashOp (f : Bytes → Bytes) (x : String) : String :=
+  match parseHex? x with
+  | some b => toHex (f b)
+  | none => badArgs
+
+def primitives (op : String) (args : List String) : Option String :=
+  match op, args with
+  | "c13.sha1", [x] => some <| hashOp sha1 x
+  | "c13.sha256", [x] => some <| hashOp sha256 x
+  | "c13.hash256", [x] => some <| hashOp hash256 x
+  | "c13.ripemd160", [x] => some <| hashOp ripemd160 x
+  | "c13.hash160", [x] => some <| hashOp hash160 x
+  | "c13.murmur3", [seed, x] => some <|
+      match parseNat? seed, parseHex? x with
+      | some s, some b => if s < 2 ^ 32 then toString (murmur3 (UInt32.ofNat s) b).toNat else badArgs
+      | _, _ => badArgs
+  | "c13.pubkey", [k, c] => some <|
+      match parseNat? k, parseBool? c with
+      | some k, some c => toHex (Secp256k1.pubkeyOf k c)
+      | _, _ => badArgs
+  | "c13.decode", [pk, c] => some <|
+      match parseHex? pk, parseBool? c with
+      | some pk, some c =>
+          (match Secp256k1.decode pk with
+           | some P => toHex (Secp256k1.encode P c)
+           | none => "none")
+      | _, _ => badArgs
+  | "c13.mul", [k, pk, c] => some <|
+      match parseNat? k, parseHex? pk, parseBool? c with
+      | some k, some pk, some c =>
+          (match Secp256k1.decode pk with
+           | some P => toHex (Secp256k1.encode (Secp256k1.mul k P) c)
+           | none => "none")
+      | _, _, _ => badArgs
+  | "c13.add", [a, b, c] => some <|
+      match parseHex? a, parseHex? b, parseBool? c with
+      | some a, some b, some c =>
+          (match Secp256k1.decode a, Secp256k1.decode b with
+           | some P, some Q => toHex (Secp256k1.encode (Secp256k1.add P Q) c)
+           | _, _ => "none")
+      | _, _, _ => badArgs
+  | "c13.verify", [pk, h, r, s] => some <|
+      match parseHex? pk, parseHex? h, parseNat? r, parseNat? s with
+      | some pk, some h, some r, some s =>
+          (match Secp256k1.decode pk with
+           | some P => bit (Secp256k1.verify P (Secp256k1.digestNat h) r s)
+           | none => "nopub")
+      | _, _, _, _ => badArgs
+  | "c13.verifyDer", [pk, h, sig] => some <|
+      match parseHex? pk, parseHex? h, parseHex? sig with
+      | some pk, some h, some sig =>
+          (match Secp256k1.decode pk, Secp256k1.derDecodeStrict sig with
+           | none, _ => "nopub"
+           | _, none => "notder"
+           | some P, some (r, s) => bit (Secp256k1.verify P (Secp256k1.digestNat h) r s))
+      | _, _, _ => badArgs
+  | "c13.sign", [d, h, k] => some <|
+      match parseNat? d, parseHex? h, parseNat? k with
+      | some d, some h, some k =>
+          (match Secp256k1.sign d (Secp256k1.digestNat h) k with
+           | some (r, s, recid) => s!"{r},{s},{recid}"
+           | none => "none")
+      | _, _, _ => badArgs
+  | "c13.signLowS", [d, h, k] => some <|
+      match parseNat? d, parseHex? h, parseNat? k with
+      | some d, some h, some k =>
+          (match Secp256k1.signLowS d (Secp256k1.digestNat h) k with
+           | some (r, s, recid) => s!"{r},{s},{recid}"
+           | none => "none")
+      | _, _, _ => badArgs
+  | "c13.recover", [h, r, s, recid, c] => some <|
+      match parseHex? h, parseNat? r, parseNat? s, parseNat? recid, parseBool? c with
+      | some h, some r, some s, some recid, some c =>
+          (match Secp256k1.recover (Secp256k1.digestNat h) r s recid with
+           | some P => toHex (Secp256k1.encode P c)
+           | none => "none")
+      | _, _, _, _, _ => badArgs
+  | "c13.derEncode", [r, s] => some <|
+      match parseNat? r, parseNat? s with
+      | some r, some s => toHex (Secp256k1.derEncode r s)
+      | _, _ => badArgs
+  | "c13.derDecode", [sig] => some <|
+      match parseHex? sig with
+      | some sig =>
+          (match Secp256k1.derDecodeStrict sig with
+           | some (r, s) => s!"{r},{s}"
+           | none => "none")
+      | none => badArgs
+  | "c13.lowS", [s] => some <|
+      match parseNat? s with
+      | some s => bit (Secp256k1.isLowS s)
+      | none => badArgs
+  | _, _ => none
+
+/-- verdict on a signature the library produced: strict DER, low S (reference test and the model of
+    `IsLowDERSignature`), reference verification under the key `secret·G` -/
+def signVerdict (secret : Bytes) (digest sig : Bytes) : String :=
+  match Secp256k1.derDecodeStrict sig with
+  | none => "bad:not-strict-der"
+  | some (r, s) =>
+    let low := Secp256k1.isLowS s
+    let mlow := Model.Keys.isLowDERSignature sig
+    let ver := Secp256k1.verify (Secp256k1.mulG (beNat secret)) (Secp256k1.digestNat digest) r s
+    if low && ver && (match mlow with | .ok true => true | _ => false) then "ok"
+    else s!"bad:lowS={bit low},verify={bit ver},modelLow={Res.render (mlow.map bit)}"
+
+def glue (op : String) (args : List String) : Option String :=
+  match op, args with
+  | "c13.key", [chain, secret, c] => some <|
+      match Spec.chainByName? chain, parseHex? secret, parseBool? c with
+      | some ch, some secret, some c =>
+          let payload := Model.Keys.wifPayload secret c
+          let pub := Model.Keys.pubOfSecret secret c
+          let rt := match Model.Keys.wifParse ch.secretKey ch.secretKey payload with
+            | .ok (sec, c') => s!"{toHex sec},{bit c'},{toHex (Model.Keys.pubOfSecret sec c')}"
+            | .error e => "err:" ++ e.family
+          s!"pub={toHex pub} ver={ch.secretKey} payload={toHex payload} rt={rt}"
+      | _, _, _ => badArgs
+  | "c13.wifparse", [chain, ver, payload] => some <|
+      match Spec.chainByName? chain, parseNat? ver, parseHex? payload with
+      | some ch, some ver, some payload =>
+          (match Model.Keys.wifParse ch.secretKey ver payload with
+           | .ok (sec, c) => s!"{toHex sec},{bit c},{toHex (Model.Keys.pubOfSecret sec c)}"
+           | .error e => "err:" ++ e.family)
+      | _, _, _ => badArgs
+  | "c13.signcheck", [secret, _c, digest, sig] => some <|
+      match parseHex? secret, parseHex? digest, parseHex? sig with
+      | some secret, some digest, some sig => signVerdict secret digest sig
+      | _, _, _ => badArgs
+  | "c13.signFinish", [digest, raw] => some <|
+      match parseHex? digest, parseHex? raw with
+      | some digest, some raw =>
+          Res.render ((Model.Keys.signFinish digest raw).map fun o =>
+            match o with | some b => toHex b | none => "None")
+      | _, _ => badArgs
+  | "c13.isLowDer", [sig] => some <|
+      match parseHex? sig with
+      | some sig => Res.render ((Model.Keys.isLowDERSignature sig).map bit)
+      | none => badArgs
+  | "c13.cmpBE", [a, b] => some <|
+      match parseHex? a, parseHex? b with
+      | some a, some b =>
+          let r := Model.Keys.compareBigEndian a b
+          if r > 0 then "1" else if r < 0 then "-1" else "0"
+      | _, _ => badArgs
+  | "c13.toLowS", [sig] => some <|
+      match parseHex? sig with
+      | some sig => (match Model.Keys.signatureToLowS sig with | some b => toHex b | none => "None")
+      | none => badArgs
+  | "c13.fullyvalid", [pk] => some <|
+      match parseHex? pk with
+      | some pk => bit (Secp256k1.decode pk).isSome
+      | none => badArgs
+  | _, _ => none
+
+def handle (op : String) (args : List String) : Option String :=
+  match primitives op args with
+  | some r => some r
+  | none => glue op args
 
 end Driver.C13
